@@ -1,17 +1,17 @@
 SPECIFICATION MCSpec
 CONSTANTS
- N = 2
- Auth = TRUE
- Enc = FALSE
- Chunked = FALSE
- Variant = "select"
- MACLEN = 2
- BLK = 2
- BUFSZ = 12
+ CN = 2
+ CAuth = TRUE
+ CEnc = FALSE
+ CChunked = FALSE
+ CVariant = "select"
+ CMACLEN = 2
+ CBLK = 2
+ CBUFSZ = 12
  Delim = 63
  NoVal <- NoValMC
  Rcv = 1
- Prog <- Prog2_2
+ Prog <- Prog2_21
  MaxFault = 0
  Kinds <- AllKinds
  Scheds = {1,2,3}
